@@ -16,6 +16,10 @@
 // *before* the assignment is carried out - so the scheduler can put another thread's accesses to the same
 // slot into the window (check-then-assign races become reachable states), and the `slot_assigned` monitor
 // reports the event itself.  Reads (operator bool, ->, copies) are never events.
+// Everything else std::shared_ptr offers is inherited unchanged (all constructors incl. deleter / allocator /
+// unique_ptr / weak_ptr forms, array forms, reset, swap, owner_before, ...); the constructors that line handles
+// are normally built with (default, converting copies and moves, raw pointer, aliasing) are re-declared only to
+// record the constructing thread.  make_shared / allocate_shared are the real ones (their result converts).
 // Include after vstd.hpp / vpay.hpp and before `#define std vstd`.
 #pragma once
 #include "vstd.hpp"
@@ -56,6 +60,9 @@ class shared_ptr: public ::std::shared_ptr<T> {
     using base = ::std::shared_ptr<T>;
 
   public:
+    using element_type = typename base::element_type;
+    using base::base;
+    using base::operator=;
     shared_ptr() noexcept { vs::slotreg().born(this); }
     shared_ptr(::std::nullptr_t) noexcept { vs::slotreg().born(this); }  // NOLINT
     template<class U>
@@ -70,6 +77,12 @@ class shared_ptr: public ::std::shared_ptr<T> {
     }
     template<class U>
     explicit shared_ptr(U* p): base(p)
+    {
+        vs::slotreg().born(this);
+    }
+    // aliasing constructors: share ownership with r, point to p
+    template<class U>
+    shared_ptr(const ::std::shared_ptr<U>& r, element_type* p) noexcept: base(r, p)
     {
         vs::slotreg().born(this);
     }
